@@ -113,4 +113,43 @@ def step (_ : Unit) : List String → Unit × String
 
 def main (_ : List String) : IO Unit := loopLines step ()
 
+/-! ### suite C01cfg: server configuration -> client policy
+
+`config.LoadServerConfigFromFile` copies each option that is present (absent = false), and
+`hopserver.NewHopServer` turns the four options into the transport server's `VerifyConfig`:
+`InsecureSkipVerify` overrides everything; otherwise certificate validation against the CA files
+unless `DisableCertificateValidation`, and an authorized-key set when `EnableAuthorizedKeys` or
+`EnableAuthgrants` (a grant adds the delegate's key to it, only when grants are enabled). -/
+
+def triOpt (s : String) : Option Bool :=
+  if s = "a" then some false else if s = "t" then some true else if s = "f" then some false else none
+
+def stepCfg (_ : Unit) : List String → Unit × String
+  | ["cfg", mode, skip, dcv, ak, ag, ca, client, granted] =>
+    if mode ≠ "toml" ∧ mode ≠ "struct" then ((), "bad-op") else
+    if ca ≠ "0" ∧ ca ≠ "1" then ((), "bad-op") else
+    if granted ≠ "0" ∧ granted ≠ "1" then ((), "bad-op") else
+    if client ∉ ["ok", "selfsigned", "otherroot"] then ((), "bad-op") else
+    match triOpt skip, triOpt dcv, triOpt ak, triOpt ag with
+    | some skip, some dcv, some ak, some ag =>
+      let pol : Policy := ⟨true, skip, ak || ag, false⟩
+      -- the chain verifies iff the client's certificate is issued under the CA, the CA is listed and
+      -- validation is not disabled (a disabled validation leaves an empty store: nothing verifies)
+      let chain := client == "ok" && ca == "1" && !dcv
+      let facts : CertFacts :=
+        { parses := true, formatOK := true, keyListed := ag && granted == "1", chainOK := chain, callbackOK := true }
+      ((), "h=" ++ b01 (policyAccepts pol facts))
+    | _, _, _, _ => ((), "bad-op")
+  | ["sni", k] =>
+    -- one virtual host, no fallback: a name that matches no pattern is refused - whatever its type byte -
+    -- and the server goes on serving
+    -- (the server matches on the label alone and serves `type7f-match`, but the client asked for a name
+    -- of another type than the certificate carries and rejects the certificate: C01's name clause)
+    if k = "match" then ((), "h=1 a=1")
+    else if k = "nomatch" ∨ k = "type7f-nomatch" ∨ k = "type7f-match" ∨ k = "empty" then ((), "h=0 a=1")
+    else ((), "bad-op")
+  | _ => ((), "bad-op")
+
+def mainCfg (_ : List String) : IO Unit := loopLines stepCfg ()
+
 end Driver.C01
